@@ -22,6 +22,7 @@ import PoetryVerif.Proofs.MarkerAlgSoundPv
 import PoetryVerif.Proofs.MarkerAlgSoundPfv
 import PoetryVerif.Proofs.MarkerAlgSoundPyInv
 import PoetryVerif.Proofs.MarkerAlgSoundPr
+import PoetryVerif.Proofs.MarkerAlgSoundInvLists
 import PoetryVerif.Proofs.PyConvPairFinal
 import PoetryVerif.Proofs.MarkerPrint
 
@@ -610,10 +611,69 @@ example : mkSingle "platform_release" ">=5.10" false = .ok (prLeafOf .ge ">=" 5 
   exact ⟨t1 ▸ mkSingle_prLeaf (sop := .ge) (ops := ">=") (by decide) 5 [10],
     ⟨.ge, ">=", 5, [10], by decide, by simp, rfl⟩, invert_pr (by decide) 5 [10]⟩
 
-/-- the leaf facts that remain hypotheses outside the string fragment, as one visible statement:
-version-like variables (through C05's exactness on regular probes), the
-`python_version`/`python_full_version` pairing, `extra`, and `in`/`not in` atoms (false there:
-`union_notin_notin_counterexample`) -/
+/-- **Inversion preserves truth on every marker of single markers in C06's agreement domain** — no closure
+under merging is needed (inversion never merges), so this covers item classes outside the intersect/union
+domain: a marker all of whose leaves are built from items that agree with the PEP 508 reference evaluator
+(model value = reference value, leaf coherent, own name/operator/value kept), together with their flipped items,
+inverts (`==`↔`!=`, `<`↔`>=`, `<=`↔`>`, `in`↔`not in`; not `~=`) to a marker that validates to the negation.
+The reference evaluator negates under the flip (`evalItem_flip`). -/
+theorem invert_sound_agreement {a r : M} (ha : M.Good (FlipReady E) a) (h : a.invert = .ok r) :
+    M.Good (CohEvalLeaf E) r ∧ M.validate E r = .ok (!holds E a) := by
+  have := M.invert_sound_agree ha h
+  refine ⟨this.1, ?_⟩
+  rw [holds_is_validate E r (M.good_mono (fun l hl => hl.2) r this.1)]
+  exact congrArg _ this.2
+
+/-- **Instances: `in` / `not in` lists are ready to be inverted** — on `python_version` (entries `X.Y`), on
+`python_full_version` (entries of three or more components), on the canonical string variables (plain tokens
+that can stand between double quotes), and the reversed-operand leaves `"v" in name` / `"v" not in name`; in every
+environment that defines the variable (as a release number for the version variables). -/
+theorem lists_ready_to_invert (isIn : Bool) :
+    (∀ (p0 : Nat × Nat) (rest : List (String × (Nat × Nat))), (∀ q ∈ rest, SepRun q.1) → ∀ x' y' : Nat,
+      E.get? "python_version" = some (Version.relText [x', y']) →
+      ∃ s, mkSingle "python_version" ((if isIn then "in" else "not in") ++ verList2 p0 rest) false = .ok s ∧
+        FlipReady E (.single s)) ∧
+    (∀ (t0 : VTok) (rest : List (String × VTok)), (∀ q ∈ rest, SepRun q.1) →
+      (∀ t ∈ t0 :: rest.map (·.2), 2 ≤ t.2.length) → ∀ (x' : Nat) (r' : List Nat),
+      E.get? "python_full_version" = some (Version.relText (x' :: r')) →
+      ∃ s, mkSingle "python_full_version" ((if isIn then "in" else "not in") ++ verListN t0 rest) false = .ok s ∧
+        FlipReady E (.single s)) ∧
+    (∀ (n ev : String), n ∈ plainStringVars → ∀ (t0 : String) (rest : List (String × String)), ListLitOk t0 rest →
+      ValOk t0 → (∀ p ∈ rest, ValOk p.2) → E.get? (Spec.Pep508.canonVar n) = some ev →
+      ∃ s, mkSingle n ((if isIn then "in" else "not in") ++ listLit t0 rest) false = .ok s ∧
+        FlipReady E (.single s)) ∧
+    (∀ (n v ev : String), n ∈ plainStringVars → PlainTok v → ValOk v →
+      E.get? (Spec.Pep508.canonVar n) = some ev →
+      ∃ s, mkSingle n (itemConstraintString (if isIn then "in" else "not in") v true) true = .ok s ∧
+        FlipReady E (.single s)) :=
+  ⟨fun p0 rest hs x' y' hev => flipReady_pv_list E isIn p0 rest hs x' y' hev,
+   fun t0 rest hs h3 x' r' hev => flipReady_pfv_list E isIn t0 rest hs h3 x' r' hev,
+   fun n ev hn t0 rest h h0 hr hev => flipReady_str_list E isIn n ev hn t0 rest h h0 hr hev,
+   fun n v ev hn hv hq hev => flipReady_rev E isIn n v ev hn hv hq hev⟩
+
+/-- `python_version in "3.8 3.9"` is a leaf ready to be inverted in an environment with `python_version = 3.9` -/
+example : ∃ s, mkSingle "python_version" ("in" ++ verList2 (3, 8) [(" ", (3, 9))]) false = .ok s ∧
+    FlipReady exEnvPv (.single s) ∧ verList2 (3, 8) [(" ", (3, 9))] = "3.8 3.9" := by
+  obtain ⟨s, h1, h2⟩ := flipReady_pv_list exEnvPv true (3, 8) [(" ", (3, 9))]
+    (by intro q hq; simp at hq; subst hq; exact ⟨by decide, by decide⟩) 3 9 (by decide)
+  exact ⟨s, h1, h2, by decide⟩
+
+/-- **Consequences on the full comparison-operator domain**: a result reported empty holds nowhere, a result
+reported universal holds everywhere — no unproved hypothesis. -/
+theorem empty_any_full {ex : List String} (hX : E.extras = some ex) {X Y Z : Nat} (hE : EnvPy E X Y Z)
+    {a b r : M} (ha : M.Good (FullLeaf E) a) (hb : M.Good (FullLeaf E) b) :
+    (mIntersect fuel stk a b = .ok r → r.isEmpty = true → (holds E a && holds E b) = false) ∧
+    (mUnion fuel stk a b = .ok r → r.isAny = true → (holds E a || holds E b) = true) :=
+  ⟨fun h he => empty_never_true_partial (leafSpec_full hX hE (pairSound_py hE)) ha hb h he,
+   fun h he => any_always_true_partial (leafSpec_full hX hE (pairSound_py hE)) ha hb h he⟩
+
+/-- the leaf facts for EVERY leaf the constructor builds, as one visible statement.  Proved above for: `==`/`!=`
+leaves on the string variables and `extra` over plain values (with the atomic multi/union leaves merges build),
+the six comparison operators on `python_version "X.Y"`, `python_full_version "X.Y.Z"` (including the pairing)
+and `platform_release` release numbers.  Not covered: `~=`, `in`/`not in` and `===` leaves, reversed-operand
+leaves, version literals of other shapes (pre-releases, wildcards, other component counts), alias spellings.
+The statement as a whole is false: `in`/`not in` atoms on string variables violate it
+(`union_notin_notin_counterexample`). -/
 def C07_leaf_facts_full_statement : Prop :=
   ∀ E : Env, ∃ G : Leaf → Prop, (∀ l, ParsedLeaf l → (∃ b, l.validate E = .ok b) → G l) ∧
     LeafSpec (leafEval E) G ∧ LeafInvertSound (leafEval E) G
